@@ -688,6 +688,9 @@ func (c *ctx) runReplay() {
 		c.decCase("replay", b, true)
 	case "http":
 		c.httpReplay(rp.HTTP)
+	case "burst":
+		c.httpCases()
+		c.p2pCases()
 	default:
 		panic("unknown replay kind " + rp.Kind)
 	}
